@@ -53,6 +53,8 @@ def build_program_case(rng, n_blocks=None, allow=None, main_modes=('usr', 'sys',
     te = rng.getrandbits(1)
     mode = rng.choice(main_modes)
     rets = {k: rng.choice((P.RETURNS_THUMB if te else P.RETURNS_ARM)[k]) for k in ('irq', 'fiq', 'svc', 'und', 'dabt')}
+    rets['mon_irq'] = rng.choice((P.RETURNS_THUMB if te else P.RETURNS_ARM)['irq'])
+    rets['mon_fiq'] = rng.choice((P.RETURNS_THUMB if te else P.RETURNS_ARM)['fiq'])
     low, hinfo = P.build_low(te, rets)
     allow = allow or ('alu', 'mem', 'stack', 'loop', 'cond', 'svc', 'udf', 'it', 'multi')
     mg = P.MainGen(rng, thumb, mode != 'usr', allow=allow)
@@ -63,6 +65,12 @@ def build_program_case(rng, n_blocks=None, allow=None, main_modes=('usr', 'sys',
     G.set_data(devices[1], 0, code)
     G.set_data(devices[2], 0x400, bytes(rng.getrandbits(8) for _ in range(0x100)))
     regs = P.main_state(rng, cfg, mode, thumb, te, extra_sys)
+    if cfg['have_security_ext'] and rng.random() < 0.5:
+        # Security Extensions routing: IRQ and/or FIQ are taken to Monitor mode (handlers behind MVBAR), from a Secure or Non-secure main program
+        scr = rng.choice([2, 4, 6]) | rng.getrandbits(1) | rng.getrandbits(2) << 4
+        if scr & 1 and not scr & 4:
+            scr |= 1 << 4        # Non-secure FIQ handled in FIQ mode needs SCR.FW=1, otherwise the entry cannot mask F and the line re-fires forever
+        regs['sys']['scr'] = scr
     core = {'config': cfg, 'devices': devices, 'regs': regs, 'done_pc': G.CODE + len(code) - (2 if thumb else 4)}
     meta = {'thumb': thumb, 'te': te, 'mode': mode, 'returns': rets, 'main_lo': G.CODE, 'main_hi': G.CODE + len(code),
             'handlers': {k: list(v) for k, v in hinfo.items()}}
@@ -149,7 +157,7 @@ class ReturnChecker:
             self.stack.pop()
             post_cpsr = rec['post'][1]
             pc = rec['post'][0][M.RNAMES.index('PC')]
-            ret = self.meta['returns'].get(kind, '?')
+            ret = self.meta['returns'].get(('mon_' + kind) if hmode == 0x16 else kind, '?')
             site = name[:-2] if name[-2:] in ('A1', 'A2', 'T1', 'T2') else name
             if post_cpsr != saved:
                 b.violate('return.cpsr_restored', site, 'cpsr_not_restored',
